@@ -2,7 +2,7 @@
 from . import shared as S
 
 META = {
-    'claim_added': "Also decided: every return of get_single_node goes through __process_node (an empty document is type checked as null); what PyYAML constructed is re-checked element by element (__type_matches as a complete recursion) on every path to __init__; Node.get_attribute answers only for exactly one matching key; recognition and signature introspection write no state; requiredness is 'position in the full argument list < len(args) - len(defaults)'; abstract classes and foreign tags are rejected (R03.1/4/6). Round 3: nothing writes the composed tree before __process_node (merge-key expansion, key normalisation) and the cycle check comes first (R01.10); no constructor is registered after the user's classes (R01.9); the class arm processes every present attribute whatever its type. Round 6: R01.15 - __process_node writes the node object it was handed, per reference (known finding F19b: `&a foo: *a` as Dict[str, Path] yields a Path key). Round 6 (E14): caches on the code this property is about are invisible - no value that lives in a memo cell (dict / lazily filled attribute / lru_cache) is modified by the code it is handed to, the key of a cell contains every input its value depends on, no mutable parameter default is modified or handed out; given that, the program is analysed as if every lookup missed.",
+    'claim_added': "Also decided: every return of get_single_node goes through __process_node (an empty document is type checked as null); what PyYAML constructed is re-checked element by element (__type_matches as a complete recursion) on every path to __init__; Node.get_attribute answers only for exactly one matching key; recognition and signature introspection write no state; requiredness is 'position in the full argument list < len(args) - len(defaults)'; abstract classes and foreign tags are rejected (R03.1/4/6). Round 3: nothing writes the composed tree before __process_node (merge-key expansion, key normalisation) and the cycle check comes first (R01.10); no constructor is registered after the user's classes (R01.9); the class arm processes every present attribute whatever its type. Round 6: R01.15 - __process_node writes the node object it was handed, per reference (known finding F19b: `&a foo: *a` as Dict[str, Path] yields a Path key). Round 6 (E14): caches on the code this property is about are invisible - no value that lives in a memo cell (dict / lazily filled attribute / lru_cache) is modified by the code it is handed to, the key of a cell contains every input its value depends on, no mutable parameter default is modified or handed out; given that, the program is analysed as if every lookup missed. Round 12: R01.16 - no function of yatiml.constructors stores into a node of the processed tree (a key renamed after __process_node hands __init__ a value nobody judged); a display stored in a memo cell makes its elements cached objects (publish-before-fill is an M1 violation).",
     'level': 'other',
     'technique': 'static: CFG dominance / must-pass-through and guard evaluation over the abstract cardinality domain on '
                  'Loader.get_single_node, __process_node, __type_to_tag, Recognizer.__recognize_*; table agreement',
@@ -50,5 +50,7 @@ def run(ctx):
     # one node reached by two references of different expected types is written in place per reference (known finding F19b)
     R3.r18_10_reference_owned_node(ctx, 'R01.15')
     S.r04_5_strip_tags(ctx, 'R01.16')
+    from . import round3 as R3w
+    R3w.r01_16_constructors_write_no_node(ctx, 'R01.16')
     from . import memo_rules as M
     M.memo_sound(ctx, 'R01.M')
